@@ -215,9 +215,12 @@ class Task(NamedUIDObject):
         list_of_z3_assertions = list(list_of_z3_assertions) + self._date_assertions
         if self.optional:  # in this case the previous assertions maybe skipped
             self._scheduled = z3.Bool(f"{self.name}_scheduled")
-            # the first task is moved to -1, the second to -2
-            # etc.
-            point_in_past = -self._task_number
+            # each unscheduled task is moved to its own instant in the past. This instant
+            # must also differ from the ones used for the workers that a selection does
+            # not pick, hence the counter of the problem
+            point_in_past = (
+                processscheduler.base.active_problem.get_unique_negative_integer()
+            )
             if isinstance(self, VariableDurationTask):
                 not_scheduled_assertion = z3.And(
                     self._start == point_in_past,  # to past
